@@ -493,14 +493,32 @@ def c18(sc, V):
             continue
         p = s.props()
         sigs = [l for l in s.lines if l[0] == "sig"]
-        if not sigs:
-            continue
         name = p.get("name")
         w = None
         if isinstance(name, str):
             for x in s.before.watchers:
                 if x["name"].lower() == name.lower():
                     w = x
+        # "all active workers of the named watcher": a `signal` addressed to the whole watcher and answered ok reaches every
+        # listed worker that is alive — one that is being stopped (its kill is in its grace period) included
+        if (s.cmd() == "signal" and w is not None and isinstance(p, dict) and not any(k in p for k in ("pid", "children", "recursive", "childpid"))
+                and isinstance(p.get("signum"), int) and not isinstance(p.get("signum"), bool) and 1 <= p["signum"] <= 64
+                and any(r[3] == "ok" for r in s.of("rep")) and not (s.n > 0 and V[s.n - 1].kind() == "fault")):
+            cfgw = next((c for c in sc["watchers"] if c["name"] == w["name"]), None)
+            hooked = cfgw is None or any(h in (cfgw.get("hooks") or {}) for h in ("before_signal", "after_signal")) or \
+                any(x.kind() == "req" and x.cmd() in ("set", "add", "rm") for x in V[:s.n])
+            if not hooked:
+                got = set(l[1] for l in sigs)
+                # alive before AND after the step: a worker whose death was already under way (a stop signal it obeys after a
+                # latency that has run out) shows as running in the snapshot before and turns out dead when it is looked at
+                missed = sorted(pp[0] for pp in w["procs"] if alive(s.before.kernel.get(pp[0], ("g", 0))[0]) and
+                                alive(s.snap.kernel.get(pp[0], ("g", 0))[0]) and pp[0] not in got)
+                if missed:
+                    f.append({"sig": "signal-misses-active-worker", "step": s.n,
+                              "msg": "signal %s to the whole watcher %r answered ok, live listed worker(s) %r got nothing (signalled: %r)"
+                                     % (p["signum"], name, missed, sorted(got))})
+        if not sigs:
+            continue
         own = set(pp[0] for pp in w["procs"]) if w else set()
         allowed = s.before.descendants(own)
         for l in sigs:
